@@ -136,7 +136,8 @@ PolyEnd(n) == (n + 1) * 4            \* (!) the last coordinate digit is paramet
 InitSt == [tag |-> "Default", lvl |-> 0, ps |-> 0, hc |-> FALSE, cmd |-> 0, f |-> <<>>, pts |-> <<>>, txt |-> <<>>, cnt |-> 0,
            ansi |-> "D", astart |-> FALSE, an |-> 0, a1 |-> 0, rip |-> TRUE, susp |-> FALSE]
 InParams(st) == st.tag = "ReadParams" \/ st.tag = "SkipEOL"
-R(s, ex, res) == [st |-> s, exec |-> ex, res |-> res]
+\* result of one character: next state, executed commands (RIP text), outcome class, characters handed to the fallback parser
+R(s, ex, res) == [st |-> s, exec |-> ex, res |-> res, fed |-> <<>>]
 Goto(st, tag, lvl) == [st EXCEPT !.tag = tag, !.lvl = lvl]
 
 \* ------------------------------------------------------------------ Command::to_rip_string
@@ -196,7 +197,7 @@ Push(st, id) == R([Effects(st, id, <<>>) EXCEPT !.tag = "GotRipStart", !.lvl = 0
 
 \* ------------------------------------------------------------------ parse_parameter
 \* some = Some(..) was returned (in state SkipEOL a None moves on to ReadParams)
-PP(r, some) == [st |-> r.st, exec |-> r.exec, res |-> r.res, some |-> some]
+PP(r, some) == [st |-> r.st, exec |-> r.exec, res |-> r.res, fed |-> <<>>, some |-> some]
 End(st, tag) == IF st.hc THEN Exe(Goto(st, tag, 0)) ELSE R(Goto(st, tag, 0), <<>>, "ok")
 ParseParam(st, c, p) ==                  \* p = ParseCmd(st, c), passed as an argument so that it is evaluated once
   CASE c = 92 -> PP(R(Goto(st, "SkipEOL", 0), <<>>, "ok"), TRUE)                \* line continuation
@@ -227,7 +228,7 @@ AnsiStep(st, c) ==
     [] OTHER -> R(st, <<>>, "any")
 \* characters handed to the fallback parser one after the other (`?`: an error ends the hand-over; only the last one can fail
 \* because the parser is in state Default whenever the lexer is not)
-Feed(st, cs) == FoldLeft(LAMBDA acc, c : AnsiStep(acc.st, c), R(st, <<>>, "ok"), cs)
+Feed(st, cs) == [FoldLeft(LAMBDA acc, c : AnsiStep(acc.st, c), R(st, <<>>, "ok"), cs) EXCEPT !.fed = cs]
 FeedUnlessSuspended(st, cs) == IF st.susp THEN R(st, <<>>, "ok") ELSE Feed(st, cs)
 
 \* ------------------------------------------------------------------ Parser::print_char
@@ -273,6 +274,10 @@ RipStepX(st0, c, cls) ==
          ELSE FeedUnlessSuspended(Goto(st, "Default", 0), <<33, c>>)
     [] OTHER -> InDefault(st, c)
 RipStep(st, c) == RipStepX(st, c, FALSE)
+\* does the text caret move?  1: printable ASCII was handed to a fallback parser in its ground state; 0: nothing was handed over
+\* and no command ran; 2: unknown (a command ran, control characters, escape sequences)
+Printable(cs) == \A i \in 1..Len(cs) : cs[i] >= 32 /\ cs[i] <= 126
+CaretMoves(pre, x) == IF x.exec # <<>> THEN 2 ELSE IF x.fed = <<>> THEN 0 ELSE IF pre.ansi = "D" /\ Printable(x.fed) THEN 1 ELSE 2
 
 \* a whole string; result = final state + all executed commands
 RunStr(st, cs) == FoldLeft(LAMBDA acc, c : LET r == RipStep(acc.st, c) IN [st |-> r.st, exec |-> acc.exec \o r.exec], [st |-> st, exec |-> <<>>], cs)
